@@ -17,8 +17,10 @@ CLAIM = dict(
          "different axes commute; dataSmooth equals the composition of the smoothers of all energy axes in ANY order "
          "(explicitly for two axes), is linear, preserves constants and is the identity when all smoothers are void; "
          "get_smoother returns void exactly for missing energy/smear, smear<=0 or <2 energies; after ANY history of "
-         "reads of the memoised dataSmooth and in-place add() calls dataSmooth is the smoothed current data (read, add(B), "
-         "read gives dataSmooth(A)+dataSmooth(B)).  The pre-fix loop is proved to smooth axis 0 only (finding F1) and the "
+         "reads of the memoised dataSmooth, in-place add() calls and derivations of new results from old ones (* / mul_array "
+         "+ - transform, loaded copies: anything built by the constructor) EVERY live result's dataSmooth is the smoothing of "
+         "its own current data (read, add(B), read gives dataSmooth(A)+dataSmooth(B)); inheriting parent.dataSmooth*factor is "
+         "proved sound for scalars and unsound for an array varying along a smoothed axis (counterexample).  The pre-fix loop is proved to smooth axis 0 only (finding F1) and the "
          "pre-fix add() to keep a stale memoised value.",
     note="Trusted: Lean kernel + Mathlib; the harness; numpy tensordot/sum/transpose; cosh/exp values of the kernels "
          "(the model receives the code's smt array; the oracle recomputes the kernels from the formulas).",
@@ -221,42 +223,77 @@ def corr(ctx):
                 lines.append(f"datasmooth {ints(shape)} {rats(Ap.reshape(-1))} {nE} {slots}")
                 checks.append(("EnergyResult.dataSmooth", gp.reshape(-1), exact, tol, case))
 
-    # ---- B'. histories of read / in-place add (cached_property) -------------------------------------------
-    for it in range(ctx.n(20, 150)):
+    # ---- B'. histories over several live results (memoised dataSmooth, derived and mutated results) -----------
+    import os
+    from wannierberri.symmetry.point_symmetry import Transform
+    tmpdir = os.path.join(ctx.work, "corr-hist")
+    os.makedirs(tmpdir, exist_ok=True)
+    for it in range(ctx.n(30, 200)):
         nE = rng.choice([1, 2])
         shape = [rng.choice([2, 3, 4]) for _ in range(nE)]
         sms, descs = [], []
         for a in range(nE):
-            s, d = make_smoother_safe(ctx, rng, shape[a], kinds=("T", "G", "V"), allow_big=False)
+            s, d = make_smoother_safe(ctx, rng, shape[a], kinds=("T", "G", "T", "V"), allow_big=False)
             sms.append(s)
             descs.append(d)
         A = rand_data(rng, shape, False, integer=True)
         Es = [d.get("E", dyadic_grid(rng, shape[a])) for a, d in enumerate(descs)]
         case = dict(op="history", shape=shape, smoothers=descs, A=A)
-        with ctx.attempt("dataSmooth / add history", case):
-            res = EnergyResult(Es, A.copy(), smoothers=sms)
+        with ctx.attempt("history of derived / mutated results", case):
+            objs = [(EnergyResult(Es, A.copy(), smoothers=sms, transformTR=Transform(), transformInv=Transform()), "orig")]
             toks = []
-            for _ in range(rng.randint(1, 4)):
-                if rng.random() < 0.5:
-                    _ = res.dataSmooth
-                    toks.append("r")
-                else:
+            for step in range(rng.randint(2, 7)):
+                i = rng.randrange(len(objs))
+                o, grp = objs[i]
+                same = [k for k in range(len(objs)) if objs[k][1] == grp]
+                op = rng.choice("rrraAmwwpsc") if len(objs) < 6 else rng.choice("rraA")
+                if op == "r":
+                    _ = rng.choice([lambda: o.dataSmooth, lambda: o.max, lambda: o._norm])()
+                    toks.append(f"r{i}")
+                elif op == "a":
                     B = rand_data(rng, shape, False, integer=True)
-                    res.add(EnergyResult(Es, B, smoothers=sms))
-                    toks.append("a:" + rats(B.reshape(-1)))
-            got = res.dataSmooth
+                    o.add(EnergyResult(Es, B, smoothers=o.smoothers))
+                    toks.append(f"a{i}:" + rats(B.reshape(-1)))
+                elif op == "A":
+                    j = rng.choice(same)
+                    o.add(objs[j][0])
+                    toks.append(f"A{i}:{j}")
+                elif op == "m":
+                    c = rng.choice([2, -1, 0.5, 3, -0.25])
+                    objs.append((o * c if rng.random() < 0.5 else c * o, grp))
+                    toks.append(f"m{i}:{rats([c])}")
+                elif op == "w":
+                    axes = tuple(sorted(rng.sample(range(nE), rng.randint(1, nE))))
+                    w = np.array([float(rng.randint(-4, 4)) for _ in range(int(np.prod([shape[a] for a in axes])))])
+                    w = w.reshape([shape[a] for a in axes])
+                    objs.append((o.mul_array(w, axes=axes), grp))
+                    full = np.broadcast_to(w.reshape([shape[a] if a in axes else 1 for a in range(nE)]), shape)
+                    toks.append(f"w{i}:" + rats(full.reshape(-1)))
+                elif op in "ps":
+                    j = rng.choice(same)
+                    objs.append((o + objs[j][0] if op == "p" else o - objs[j][0], grp))
+                    toks.append(f"{op}{i}:{j}")
+                else:
+                    name = os.path.join(tmpdir, f"c{it}_{step}")
+                    o.save(name)
+                    with quiet():
+                        objs.append((EnergyResult.from_npz(name + ".npz"), "loaded"))
+                    os.remove(name + ".npz")
+                    toks.append(f"c{i}")
+            got = np.concatenate([np.asarray(o.dataSmooth).reshape(-1) for o, _ in objs])
             ctx.count("corr.history")
+            ctx.count(f"corr.history.objects={len(objs)}")
             width = sum(2 * int(s.NE1) + 3 for s in sms if s is not None and not isinstance(s, VoidSmoother))
-            tol = 16 * (width + 2) * eps * max(1.0, 64.0)
+            tol = 16 * (width + 2) * eps * max(1.0, float(np.abs(got).max()) * 4)
             slots = " ".join(slot_tokens(s) for s in sms)
-            lines.append(f"hist {ints(shape)} {rats(A.reshape(-1))} {'/'.join(toks)} {nE} {slots}")
-            checks.append(("dataSmooth after a read/add history", got.reshape(-1), False, tol, case))
+            lines.append(f"heap {ints(shape)} {rats(A.reshape(-1))} {';'.join(toks)} {nE} {slots}")
+            checks.append(("dataSmooth of every live object after a history", got, False, tol, case))
 
     out = ctx.lean(lines)
     for l, o, (what, exp, exact, tol, case) in zip(lines, out, checks):
         ctx.case(signature=l, nontrivial=True)
         try:
-            model = parse_rats(o)
+            model = parse_rats(o.replace("|", ","))
         except Exception:
             ctx.mismatch(f"{what}: model output not parsable: {o[:80]}", dict(line=l[:400], case=case))
             continue
@@ -523,52 +560,162 @@ def oracle(ctx, scale):
     calc_oracle(ctx, scale)
 
 
+def smooth_ref(data, Ms):
+    ref = data
+    for a, M in enumerate(Ms):
+        ref = ref_apply(M, ref, a)
+    return ref
+
+
 def history_oracle(ctx, scale):
-    """histories of reads of dataSmooth (a cached_property) and in-place EnergyResult.add(): after every step
-    dataSmooth must be the smoothed CURRENT data (never a stale memoised value)"""
+    """hidden state through histories: several live results; every operation that derives a result from old ones
+    (*, reflected *, /, mul_array along energy and tensor axes, +, -, transform, copy through save/from_npz) or
+    mutates one (add), interleaved with reads of dataSmooth / max / _norm / _maxval / _normder on parents and
+    children in random order.  After EVERY step every live object whose smoothed data are memoised, and at the end
+    every live object, must have dataSmooth == its CURRENT data convolved with its own smoothers."""
+    import os
     from wannierberri.result import EnergyResult
+    from wannierberri.symmetry.point_symmetry import Transform, PointSymmetry
     rng = ctx.rng
-    for it in range(ctx.n(40, 400) * scale):
-        nE = rng.choice([1, 1, 2, 2, 3])
-        rank = rng.choice([0, 1, 2])
-        shape = [rng.choice([2, 3, 4, 5]) for _ in range(nE)] + [3] * rank
+    tmp = os.path.join(ctx.work, "hist")
+    os.makedirs(tmp, exist_ok=True)
+    for it in range(ctx.n(60, 500) * scale):
+        nE = rng.choice([1, 1, 2, 2, 2, 3])
+        rank = rng.choice([0, 1, 1, 2]) if nE < 3 else rng.choice([0, 1])
+        shape = [rng.choice([2, 3, 4, 5, 6]) for _ in range(nE)] + [3] * rank
         sms, descs = [], []
         for a in range(nE):
-            s, d = make_smoother_safe(ctx, rng, shape[a], kinds=("FD", "G", "T", "V", "G"), allow_big=False)
+            s, d = make_smoother_safe(ctx, rng, shape[a], kinds=("FD", "G", "T", "G", "FD", "V"), allow_big=False)
             sms.append(s)
             descs.append(d)
         cplx = rng.random() < 0.3
-        A = rand_data(rng, shape, cplx)
         Es = [d.get("E", dyadic_grid(rng, shape[a])) for a, d in enumerate(descs)]
-        ops = [rng.choice(["read", "add", "add"]) for _ in range(rng.randint(2, 6))]
-        if "read" not in ops[:-1]:
-            ops.insert(0, "read")
-        ops.append("read")
-        case = dict(shape=shape, nE=nE, smoothers=descs, history=ops, A=A)
-        ctx.case(signature=("hist", tuple(shape), tuple(ops), A.tobytes()), nontrivial=True)
-        ctx.count("oracle.history(read/add)")
-        with ctx.attempt("dataSmooth / add history", case):
-            res = EnergyResult(Es, A.copy(), smoothers=list(sms), rank=rank)
-            Ms = [ref_matrix(s, d, shape[a]) for a, (s, d) in enumerate(zip(sms, descs))]
-            cur = A.copy()
-            width = sum(2 * getattr(s, "NE1", 0) + 1 for s in sms if s is not None)
-            for step, op in enumerate(ops):
-                if op == "add":
-                    B = rand_data(rng, shape, cplx)
-                    res.add(EnergyResult(Es, B, smoothers=list(sms), rank=rank))
-                    cur = cur + B
-                    if not np.array_equal(res.data, cur):
-                        ctx.fail("EnergyResult.add is not the element-wise in-place sum", dict(case, step=step))
-                        break
-                else:
-                    ref = cur
-                    for a in range(nE):
-                        ref = ref_apply(Ms[a], ref, a)
-                    ok, tol = close(res.dataSmooth, ref, np.abs(cur).max(), width)
+        tTR = Transform(factor=rng.choice([1, -1]), conj=rng.random() < 0.3)
+        tInv = Transform(factor=rng.choice([1, -1]))
+        Ms0 = [ref_matrix(s, d, shape[a]) for a, (s, d) in enumerate(zip(sms, descs))]
+        MsVoid = [np.eye(shape[a]) for a in range(nE)]
+        width = sum(2 * getattr(s, "NE1", 0) + 1 for s in sms if s is not None) + 2
+        hist = []
+        case = dict(shape=shape, nE=nE, rank=rank, smoothers=descs, complex=cplx, history=hist)
+        ctx.count("oracle.history")
+
+        def fresh():
+            return EnergyResult(Es, rand_data(rng, shape, cplx), smoothers=list(sms), rank=rank, transformTR=tTR,
+                                transformInv=tInv, comment="h")
+        with ctx.attempt("history of derived / mutated results", case):
+            objs = [[fresh(), Ms0]]          # [object, reference matrices of its own smoothers]
+            if rng.random() < 0.5:
+                objs.append([fresh(), Ms0])
+                hist.append("o1 = fresh")
+            bad = False
+
+            def check(k, via_property):
+                o, Ms = objs[k]
+                if not via_property and "dataSmooth" not in o.__dict__:
+                    return True
+                got = o.dataSmooth if via_property else o.__dict__["dataSmooth"]
+                ref = smooth_ref(o.data, Ms)
+                ok, tol = close(np.asarray(got), ref, np.abs(o.data).max(), width)
+                if not ok:
+                    ctx.fail(f"after the history {hist}: dataSmooth of object o{k} is not its current data convolved with "
+                             f"its smoothers (max diff {np.abs(np.asarray(got) - ref).max():.3e}, tol {tol:.1e})",
+                             dict(case, object=k, history=list(hist)))
+                return ok
+            for step in range(rng.randint(3, 9)):
+                i = rng.randrange(len(objs))
+                o, Ms = objs[i]
+                same = [k for k in range(len(objs)) if objs[k][1] is Ms]
+                op = rng.choice(["read", "read", "read", "mul", "rmul", "div", "mul_array", "mul_array", "mul_array",
+                                 "plus", "minus", "transform", "add", "copy"])
+                if len(objs) >= 8 and op not in ("read", "add"):
+                    op = "read"
+                new = None
+                if op == "read":
+                    what = rng.choice(["dataSmooth", "dataSmooth", "max", "_norm", "_maxval", "_normder"])
+                    hist.append(f"o{i}.{what}")
+                    val = getattr(o, what)
+                    ref = smooth_ref(o.data, Ms)
+                    want = {"dataSmooth": ref, "max": None, "_norm": np.linalg.norm(ref), "_maxval": np.abs(ref).max(),
+                            "_normder": np.linalg.norm(ref[1:] - ref[:-1])}[what]
+                    if what == "max":
+                        want = np.array([np.abs(ref).max(), np.linalg.norm(ref), np.linalg.norm(ref[1:] - ref[:-1])])
+                    ok, tol = close(np.asarray(val), np.asarray(want), np.abs(o.data).max() * np.sqrt(o.data.size), width)
                     if not ok:
-                        ctx.fail(f"step {step} of the history {ops}: dataSmooth is not the smoothed current data "
-                                 f"(max diff {np.abs(res.dataSmooth - ref).max():.3e}, tol {tol:.1e})", dict(case, step=step))
+                        ctx.fail(f"after the history {hist}: o{i}.{what} is not computed from the current data convolved "
+                                 f"with the smoothers", dict(case, object=i, history=list(hist)))
+                        bad = True
+                elif op == "mul":
+                    c = rng.choice([2, -3, 0.5, 2.5, np.float64(1.25), np.int64(3)])
+                    hist.append(f"o{len(objs)} = o{i} * {c}")
+                    new = [o * c, Ms]
+                elif op == "rmul":
+                    c = rng.choice([-1, 4, 0.25])
+                    hist.append(f"o{len(objs)} = {c} * o{i}")
+                    new = [c * o, Ms]
+                elif op == "div":
+                    c = rng.choice([2, -4.0, 3.0])
+                    hist.append(f"o{len(objs)} = o{i} / {c}")
+                    new = [o / c, Ms]
+                elif op == "mul_array":
+                    nd = len(shape)
+                    k = rng.choice(["energy", "energy", "several", "tensor"]) if rank else rng.choice(["energy", "several"])
+                    if k == "energy":
+                        axes = (rng.randrange(nE),)
+                    elif k == "tensor":
+                        axes = (rng.randrange(nE, nd),)
+                    else:
+                        axes = tuple(sorted(rng.sample(range(nd), rng.randint(1, min(nd, 3)))))
+                    w = np.array([rng.randint(-12, 12) / 4 + 0.125 for _ in range(int(np.prod([shape[a] for a in axes])))])
+                    w = w.reshape([shape[a] for a in axes])
+                    arg = axes[0] if len(axes) == 1 and rng.random() < 0.5 else axes
+                    hist.append(f"o{len(objs)} = o{i}.mul_array(w{list(w.shape)}, axes={arg})")
+                    new = [o.mul_array(w, axes=arg), Ms]
+                elif op in ("plus", "minus"):
+                    j = rng.choice(same)
+                    hist.append(f"o{len(objs)} = o{i} {'+' if op == 'plus' else '-'} o{j}")
+                    new = [o + objs[j][0] if op == "plus" else o - objs[j][0], Ms]
+                elif op == "transform":
+                    M = np.zeros((3, 3))
+                    perm = list(range(3))
+                    rng.shuffle(perm)
+                    for r_ in range(3):
+                        M[r_, perm[r_]] = rng.choice([1., -1.])
+                    g = PointSymmetry(M, TR=rng.random() < 0.5)
+                    hist.append(f"o{len(objs)} = o{i}.transform(signed permutation, TR={g.TR})")
+                    new = [o.transform(g), Ms]
+                elif op == "add":
+                    j = rng.choice(same)
+                    hist.append(f"o{i}.add(o{j})")
+                    before = o.data.copy()
+                    other = objs[j][0].data.copy()
+                    o.add(objs[j][0])
+                    if not np.array_equal(o.data, before + other):
+                        ctx.fail("EnergyResult.add is not the element-wise in-place sum", dict(case, history=list(hist)))
+                        bad = True
+                elif op == "copy":
+                    hist.append(f"o{len(objs)} = from_npz(save(o{i}))")
+                    name = os.path.join(tmp, f"h{it}_{step}")
+                    o.save(name)
+                    with quiet():
+                        new = [EnergyResult.from_npz(name + ".npz"), MsVoid]
+                    os.remove(name + ".npz")
+                    if not np.array_equal(new[0].data, o.data):
+                        ctx.fail("a saved and loaded copy has different data", dict(case, history=list(hist)))
+                if new is not None:
+                    objs.append(new)
+                # nobody may carry a stale memoised value, parents and children alike
+                if not all(check(k, via_property=False) for k in range(len(objs))) or bad:
+                    bad = True
+                    break
+            if not bad:
+                order = list(range(len(objs)))
+                rng.shuffle(order)
+                hist.append("read every live object")
+                for k in order:
+                    if not check(k, via_property=True):
                         break
+            ctx.case(signature=("hist", tuple(shape), tuple(hist)), nontrivial=True)
+            ctx.count(f"oracle.history.objects={min(len(objs), 8)}")
 
 
 def calc_oracle(ctx, scale):
